@@ -22,6 +22,8 @@ with tempfile.TemporaryDirectory() as td:
     cmd = ["/venv/bin/python", "-m", "pytest", "-q", "-p", "no:cacheprovider", "--timeout=900",
            "--continue-on-collection-errors", f"--junitxml={out}", "-n", n]
     env = {k: v for k, v in os.environ.items() if k not in ("FLOX_VERIF",)}
+    # avoid 16 workers x 16 BLAS/OpenMP/numba threads of oversubscription (does not change outcomes)
+    env.setdefault("OMP_NUM_THREADS", "1"); env.setdefault("OPENBLAS_NUM_THREADS", "1"); env.setdefault("NUMBA_NUM_THREADS", "2")
     p = subprocess.run(cmd, cwd=repo, env=env, capture_output=True, text=True)
     print(p.stdout[-600:])
     passed = set()
